@@ -22,6 +22,12 @@ func drawC13(rt *rapid.T) *Case {
 	r := gen.Render(p, gen.Canon)
 	d := gen.DistinctLeaves(g.Doc(p))
 	c := &Case{Path: r.Text, AST: p, Texts: r.Steps, Doc: d, UseNumber: rapid.Bool().Draw(rt, "usenumber"), Funcs: funcs}
+	if gen.Uniform(rt, "shared", 14) == 0 {
+		// one container reachable by two paths: every path to it is a location of its own
+		c.DocKind = "shared"
+		c.Ints = append(c.Ints, 1+int(rapid.Uint32().Draw(rt, "shareseed")))
+		return c
+	}
 	if gen.Uniform(rt, "opaque", 12) == 0 {
 		// a document holding values that are not decoded JSON (typed maps and slices, pointers,
 		// Accessors ...): no accessor may lead into them
@@ -148,6 +154,15 @@ func checkC13(c *Case, st *Stats) string {
 	if c.DocKind == "opaque" {
 		st.Class("doc:opaque-values")
 		return accessorModeAgainstSpec(c, res, st)
+	}
+	if c.DocKind == "shared" && len(c.Ints) > 0 {
+		st.Class("doc:shared-subtree")
+		seed := uint64(c.Ints[len(c.Ints)-1])
+		res = spec.Eval(c.AST, gen.ShareSubtrees(c.Document(), seed), gen.PureFuncs{})
+		if res.Unspecified {
+			return ""
+		}
+		return accessorModeOnDoc(c, gen.ShareSubtrees(c.Document(), seed), res, st)
 	}
 	firstDoc := c.Document()
 	accs, rerr, msg := accessorsOf(c, firstDoc)
